@@ -8,6 +8,7 @@ package namespace
 //@   trusted
 //@   pure
 //@   ensures result1 == nil ==> result0 != nil
+//@   ensures[C13] unknown-namespace-is-not-found: result1 != nil ==> errstatus(result1) == 404
 
 //@ func Manager.Namespaces
 //@   trusted
